@@ -116,6 +116,7 @@ RewardM(inst, s, hist) == 0 - CycleLen(inst.D, <<0>> \o hist)
 ConfState(inst, s, st) ==
   /\ st.cur = s.cur /\ st.used = s.used
   /\ \A j \in Cust(inst) : st.rem[j] = s.rem[j]
+  /\ st.rem0 = 0                                   \* the depot entry of demand_with_depot
 
 PadAction(inst) == 0
 =============================================================================
